@@ -63,6 +63,20 @@ class C08(Prop):
                  "tag": rng.choice([None, "oov"] + list(range(nv)) * 2)} for _ in range(na)]
         preds = [{"geom": None if rng.random() < 0.15 else self._event_geom(rng, anchor),
                   "scores": self._scores(rng, nv), "oov_score": rng.choice([None, Fraction(1, 2)])} for _ in range(npred)]
+        if rng.random() < 0.2 and na + npred >= 3:
+            # a chain of overlaps P ~ A ~ P ~ A ...: neighbours overlap, events two apart do not; the optimal assignment then
+            # has leftovers that each overlap something but not each other
+            order = ["p"] * npred + ["a"] * na
+            rng.shuffle(order)
+            ip = ia = 0
+            for k, who in enumerate(order):
+                box = {"type": "BoundingBox", "coordinates": [Fraction(k), Fraction(1000), Fraction(k) + Fraction(rng.choice([5, 6, 7]), 4), Fraction(2000)]}
+                if who == "p":
+                    preds[ip]["geom"] = box
+                    ip += 1
+                else:
+                    anns[ia]["geom"] = box
+                    ia += 1
         return {"anns": anns, "preds": preds}
 
     def _case(self, rng):
